@@ -5,7 +5,7 @@ orchestrator can compare them with what the real library did on the same input.
 Imports only Mctp.Model / Mctp.Spec (no Mathlib), so it links as a native executable.
 -/
 import Mctp.Model.Process
-import Mctp.Spec.Spec
+import Mctp.Spec.Judge
 open Mctp
 
 namespace Drv
@@ -180,52 +180,221 @@ def fieldOf (s : String) : Option Field :=
   | "iana.vendor_id" => some IanaFmt.vendorId
   | _ => none
 
-abbrev St := List (String × Ctx)
+structure CtxSt where
+  model : Ctx
+  spec : Spec.SpecSt
 
-def St.get (st : St) (id : String) : Option Ctx := (st.find? (·.1 = id)).map (·.2)
-def St.put (st : St) (id : String) (c : Ctx) : St := (id, c) :: st.filter (·.1 ≠ id)
+abbrev St := List (String × CtxSt)
+
+def St.get (st : St) (id : String) : Option CtxSt := (st.find? (·.1 = id)).map (·.2)
+def St.put (st : St) (id : String) (c : CtxSt) : St := (id, c) :: st.filter (·.1 ≠ id)
 
 def showEids (c : Ctx) : String := s!"{hexByte c.reqEid}{hexByte c.respEid}"
 
+/-! parsing observations back (the implementation's, and the model's own for the tripwire) -/
+
+def parseKind (s : String) : PanicKind :=
+  match s with
+  | "oob" => .indexOOB | "slice" => .sliceRange | "unimplemented" => .unimplemented
+  | "unreachable" => .unreachable | "addoverflow" => .addOverflow | "suboverflow" => .subOverflow
+  | "unwrap" => .unwrapErr | "copylen" => .copyLen | _ => .explicit
+
+def parseFile (s : String) : Option SrcFile :=
+  match s with
+  | "smbus.rs" => some .smbus | "mctp_traits.rs" => some .traits | "control_packet.rs" => some .control
+  | "smbus_proto.rs" => some .proto | "base_packet.rs" => some .base | "smbus_request.rs" => some .request
+  | "smbus_response.rs" => some .response | _ => none
+
+/-- a panic in a file the model does not know is mapped to a value no finding class uses -/
+def parsePanic (k f : String) : Panic :=
+  match parseFile f with
+  | some file => ⟨parseKind k, file⟩
+  | none => ⟨.explicit, .base⟩
+
+def parseErr (s : String) : Option DecErr :=
+  match s with
+  | "unknown" => some .unknown
+  | "ctl-unknown" => some (.ctl .unknown)
+  | "len" => some (.ctl .len)
+  | "hdr" => some (.ctl .hdr)
+  | "pec" => some (.ctl .pec)
+  | "cc:0" => some (.ctl (.cc .success))
+  | "cc:1" => some (.ctl (.cc .error))
+  | "cc:2" => some (.ctl (.cc .errorInvalidData))
+  | "cc:3" => some (.ctl (.cc .errorInvalidLength))
+  | "cc:4" => some (.ctl (.cc .errorNotReady))
+  | "cc:5" => some (.ctl (.cc .errorUnsupportedCmd))
+  | _ => none
+
+/-- decode observation and "payload lies outside the input" flag -/
+def parseDecObs (t : List String) : Option (Spec.DecObs × Bool) :=
+  match t with
+  | ["ok", ty, off, len] => do
+      let ty ← parseType ty; let len ← len.toNat?
+      match off.toNat? with
+      | some o => pure (.ok (ty, o, len), false)
+      | none => pure (.ok (ty, 0, len), true)
+  | ["err", ty, e] => do pure (.err (← parseType ty, ← parseErr e), false)
+  | ["panic", k, f] => some (.panic (parsePanic k f), false)
+  | _ => none
+
+def parseProcRes (t : List String) : Option (Spec.ProcObs × Bool) :=
+  match t with
+  | ["ok", ty, off, len, "some", n] => do
+      let ty ← parseType ty; let len ← len.toNat?; let n ← n.toNat?
+      match off.toNat? with
+      | some o => pure (.ok ((ty, o, len), some n), false)
+      | none => pure (.ok ((ty, 0, len), some n), true)
+  | ["ok", ty, off, len, "none"] => do
+      let ty ← parseType ty; let len ← len.toNat?
+      match off.toNat? with
+      | some o => pure (.ok ((ty, o, len), none), false)
+      | none => pure (.ok ((ty, 0, len), none), true)
+  | ["err", ty, e] => do pure (.err (← parseType ty, ← parseErr e), false)
+  | ["panic", k, f] => some (.panic (parsePanic k f), false)
+  | _ => none
+
+def toks (s : String) : List String := (s.trimAscii.toString.splitOn " ").filter (· ≠ "")
+
+/-- `<res> | <buf> | <eids>` -/
+def parseProcObs (s : String) : Option (Spec.ProcObs × Bool × Bytes × (B × B)) :=
+  match s.splitOn " | " with
+  | [r, b, e] => do
+      let (res, outside) ← parseProcRes (toks r)
+      let buf ← parseBytes b.trimAscii.toString
+      match ← parseBytes e.trimAscii.toString with
+      | [x, y] => pure (res, outside, buf, (x, y))
+      | _ => none
+  | _ => none
+
+def parseLenObs (t : List String) : Option (Out DErr Nat) :=
+  match t with
+  | ["ok", n] => do pure (.ok (← n.toNat?))
+  | ["err", ty, e] => do pure (.err (← parseType ty, ← parseErr e))
+  | ["panic", k, f] => some (.panic (parsePanic k f))
+  | _ => none
+
+/-- encoder observation and the buffer reported with an error -/
+def parseEncObs (t : List String) : Option (Spec.EncObs × Bytes) :=
+  match t with
+  | ["ok", n, b] => do pure (.ok (← parseBytes b, ← n.toNat?), [])
+  | ["err", b] => do pure (.err (), ← parseBytes b)
+  | ["panic", k, f] => some (.panic (parsePanic k f), [])
+  | _ => none
+
+def parseSetObs (t : List String) : Option (B × B) :=
+  match t with
+  | ["ok", e] => match parseBytes e with | some [x, y] => some (x, y) | _ => none
+  | _ => none
+
+def showVerdicts (vs : List (String × Spec.Verdict)) (all : Bool) : String :=
+  let keep := vs.filter fun (_, v) =>
+    match v with
+    | .na => false
+    | .ok => all
+    | _ => true
+  if keep.isEmpty then "-" else ",".intercalate (keep.map fun (p, v) => s!"{p}={v.toString}")
+
+def encProps : List String := ["C03", "C04", "C05", "C06", "C07", "C08", "C16"]
+def decProps : List String := ["C02", "C09", "C10"]
+def lenProps : List String := ["C04", "C10", "C17"]
+def procProps : List String := ["C02", "C10", "C11", "C12", "C13", "C14", "C15"]
+
+/-- answer = model observation, verdicts on the implementation's observation (all that apply),
+verdicts on the model's own observation that are not ok (tripwire: must print `-`) -/
+def answer (m : String) (judge : String → Option (List (String × Spec.Verdict))) (impl : Option String) : String :=
+  let mv := match judge m with
+    | some vs => showVerdicts vs false
+    | none => "unparsed"
+  match impl with
+  | none => s!"{m} ## I:- M:{mv}"
+  | some o =>
+    let iv := match judge o with
+      | some vs => showVerdicts vs true
+      | none => "unparsed"
+    s!"{m} ## I:{iv} M:{mv}"
+
 def handle (st : St) (line : String) : St × String :=
-  let toks := (line.trimAscii.toString.splitOn " ").filter (· ≠ "")
-  match toks with
+  let (opPart, impl) : String × Option String :=
+    match line.splitOn " => " with
+    | [a, b] => (a, some b.trimAscii.toString)
+    | _ => (line, none)
+  let tk := toks opPart
+  match tk with
   | ["ctx", id, addr, types, vendors] =>
     match parseByte addr, parseBytes types, parseVendors vendors with
-    | some a, some t, some v => (st.put id (Ctx.new a t v), "ok")
+    | some a, some t, some v => (st.put id ⟨Ctx.new a t v, Spec.SpecSt.new a t v⟩, "ok")
     | _, _, _ => (st, "bad-op")
   | ["dec", pkt] | ["dec", _, pkt] =>
     match parseBytes pkt with
-    | some p => (st, showDec (decode p))
+    | some p =>
+      let m := showDec (decode p)
+      let judge := fun (o : String) => (parseDecObs (toks o)).map fun (d, outside) =>
+        decProps.map fun pr => (pr, Spec.judgeDec pr p d outside)
+      (st, answer m judge impl)
     | none => (st, "bad-op")
+  | "rtdec" :: _recv :: id :: _dst :: name :: rest =>
+    -- the real encoder's output (last token) handed to the decoder of context `_recv`;
+    -- `id` is the context that encoded it, `name rest` the call that made it
+    match st.get id, rest.getLast? with
+    | some c, some pkts =>
+      match parseEnc name rest.dropLast, parseBytes pkts with
+      | some e, some p =>
+        let m := showDec (decode p)
+        let judge := fun (o : String) => (parseDecObs (toks o)).map fun (d, outside) =>
+          [("C01", Spec.judgeRt c.spec e p d outside)]
+        (st, answer m judge impl)
+      | _, _ => (st, "bad-op")
+    | _, _ => (st, "bad-op")
   | ["len", pkt] | ["len", _, pkt] =>
     match parseBytes pkt with
-    | some p => (st, showLen (getLength p))
+    | some p =>
+      let m := showLen (getLength p)
+      let judge := fun (o : String) => (parseLenObs (toks o)).map fun d =>
+        lenProps.map fun pr => (pr, Spec.judgeLen pr p d)
+      (st, answer m judge impl)
     | none => (st, "bad-op")
   | ["proc", id, pkt, buf] =>
     match st.get id, parseBytes pkt, parseBytes buf with
     | some c, some p, some b =>
-      let (c', r, b') := process c p b
-      (st.put id c', s!"{showProc r} | {hexBytes b'} | {showEids c'}")
+      let (c', r, b') := process c.model p b
+      let m := s!"{showProc r} | {hexBytes b'} | {showEids c'}"
+      let judge := fun (o : String) => (parseProcObs o).map fun (res, outside, ob, oe) =>
+        procProps.map fun pr => (pr, Spec.judgeProc pr c.spec p b res outside ob oe)
+      (st.put id ⟨c', c.spec.step (.process p b)⟩, answer m judge impl)
     | _, _, _ => (st, "bad-op")
   | ["seteid", id, which, e] =>
     match st.get id, parseByte e with
     | some c, some e =>
-      let c' := if which = "req" then (stepOp c (.setEidReq e)).1 else (stepOp c (.setEidResp e)).1
-      if which = "req" ∨ which = "resp" then (st.put id c', s!"ok {showEids c'}") else (st, "bad-op")
+      if which = "req" ∨ which = "resp" then
+        let op : Op := if which = "req" then .setEidReq e else .setEidResp e
+        let c' := (stepOp c.model op).1
+        let m := s!"ok {showEids c'}"
+        let judge := fun (o : String) => (parseSetObs (toks o)).map fun oe =>
+          [("C13", Spec.judgeSet "C13" c.spec op oe)]
+        (st.put id ⟨c', c.spec.step op⟩, answer m judge impl)
+      else (st, "bad-op")
     | _, _ => (st, "bad-op")
   | ["setuuid", id, u] =>
     match st.get id, parseBytes u with
     | some c, some u =>
-      match stepOp c (.setUuid u) with
-      | (c', .panicked p) => (st.put id c', showPanic p)
-      | (c', _) => (st.put id c', s!"ok {showEids c'}")
+      match stepOp c.model (.setUuid u) with
+      | (c', .panicked p) => (st.put id ⟨c', c.spec⟩, s!"{showPanic p} ## I:- M:-")
+      | (c', _) =>
+        let m := s!"ok {showEids c'}"
+        let judge := fun (o : String) => (parseSetObs (toks o)).map fun oe =>
+          [("C13", Spec.judgeSet "C13" c.spec (.setUuid u) oe)]
+        (st.put id ⟨c', c.spec.step (.setUuid u)⟩, answer m judge impl)
     | _, _ => (st, "bad-op")
   | "enc" :: id :: dst :: name :: rest | "encr" :: id :: dst :: name :: rest =>
     match st.get id, parseByte dst, rest.getLast? with
     | some c, some d, some bufs =>
       match parseEnc name rest.dropLast, parseBytes bufs with
-      | some e, some b => (st, showEnc (encode c d e b) b)
+      | some e, some b =>
+        let m := showEnc (encode c.model d e b) b
+        let judge := fun (o : String) => (parseEncObs (toks o)).map fun (eo, eb) =>
+          encProps.map fun pr => (pr, Spec.judgeEnc pr c.spec d e b eo eb)
+        (st, answer m judge impl)
       | _, _ => (st, "bad-op")
     | _, _, _ => (st, "bad-op")
   | ["view", "get", f, raw] =>
@@ -260,7 +429,6 @@ def handle (st : St) (line : String) : St × String :=
       | .err _ => (st, "bad-op")
       | .panic p => (st, showPanic p)
     | none => (st, "bad-op")
-  | "spec" :: name :: args => (st, Spec.eval name args)
   | _ => (st, "bad-op")
 
 partial def loop (h : IO.FS.Stream) (out : IO.FS.Stream) (st : St) : IO Unit := do
